@@ -65,7 +65,8 @@ class Contract:
         self.result_from = result_from    # {'copy_of': param, 'fresh': [field, ...]}: result object shares all other fields (same references)
         REGISTRY[(file, qual if variant is None else qual + '#' + variant)] = self
         BY_NAME.setdefault(qual, []).append(self)
-        BY_NAME.setdefault(qual.split('.')[-1], []).append(self)
+        if qual.split('.')[-1] != qual:
+            BY_NAME.setdefault(qual.split('.')[-1], []).append(self)
 
     @property
     def key(self):
